@@ -15,6 +15,15 @@ Program AST (all names are strings, constants are ints or strs):
         | ["new", x, cls, a] | ["fwrite", o, f, a] | ["fread", x, o, f] | ["call", x, h, [a…]]
         | ["list", x, [a…]] | ["awrite", l, i, a] | ["aread", x, l, i]   (list literal, element write/read, constant index)
         | ["callp", h, [a…]]              (call statement whose result is not used)
+        | ["dict", x, [[key, a]…]] | ["dwrite", d, k, a] | ["dread", x, d, k]   (record literal with constant string keys; k is an
+                                          operand: a constant key or a variable that holds 1..3 key constants)
+        | ["retif", c, a]                 (helper bodies only: `if c: return a`)
+        | ["pass"] | ["iflit", [stmt…]]   (`pass`; `if 1:` body — no-ops between writes and reads)
+        | ["ret"]                         (main body, last statement of a branch: early `return 0`)
+  a class may have "init": statements run in __init__ before the field assignments (they may allocate other objects and
+  read their fields); a field initialiser is then "p", a constant, or ["v", local]
+  an operand may also be ["d", i]: the decision parameter d<i> itself (only as an argument of a multi-return helper, whose
+  parameters listed in "dparams" are not compared)
   a helper's body is a list of such statements (no `if`); it may call other helpers; "ret" may be None
 Canonical abstract element: ["i", n] | ["s", text] | ["b", bool] | ["o", line] | ["u"]; a value set
 is a sorted list of distinct elements.
@@ -67,6 +76,8 @@ def string_consts(prog):
 
 
 def opnd(a):
+    if a[0] == "d":
+        return f"d{a[1]}"
     return a[1] if a[0] == "v" else pyconst(a[1])
 
 
@@ -117,6 +128,23 @@ class Renderer:
                 self.emit(f"{s[1]}[{s[2]}] = {opnd(s[3])}", ind)
             elif t == "aread":
                 rec(self.emit(f"{s[1]} = {s[2]}[{s[3]}]", ind), s[1], "aread")
+            elif t == "dict":
+                items = ", ".join(f"{render_str(k)}: {opnd(a)}" for k, a in s[2])
+                rec(self.emit(f"{s[1]} = {{{items}}}", ind), s[1], "dict")
+            elif t == "dwrite":
+                self.emit(f"{s[1]}[{opnd(s[2])}] = {opnd(s[3])}", ind)
+            elif t == "dread":
+                rec(self.emit(f"{s[1]} = {s[2]}[{opnd(s[3])}]", ind), s[1], "dread")
+            elif t == "retif":
+                self.emit(f"if {s[1]}:", ind)
+                self.emit(f"return {opnd(s[2])}", ind + 1)
+            elif t == "pass":
+                self.emit("pass", ind)
+            elif t == "iflit":
+                self.emit("if 1:", ind)
+                self.stmts(prog, fn, s[1], ind + 1, sid + [0])
+            elif t == "ret":
+                self.emit("return 0", ind)
             else:
                 raise ValueError(t)
 
@@ -124,17 +152,21 @@ class Renderer:
         for c in prog.get("classes", []):
             self.emit(f"class {c['name']}:", 0)
             self.emit("def __init__(self, p):", 1)
+            if c.get("init"):
+                self.stmts(prog, c["name"], c["init"], 2, ["c", c["name"]])
             for f, v in c["fields"]:
-                self.emit(f"self.{f} = {v if v == 'p' else pyconst(v)}", 2)
+                self.emit(f"self.{f} = {v if v == 'p' else (v[1] if isinstance(v, list) else pyconst(v))}", 2)
         for h in prog.get("helpers", []):
             line = self.emit(f"def {h['name']}({', '.join(h['params'])}):", 0)
             for p in h["params"]:
+                if p in h.get("dparams", []):
+                    continue            # receives the decision parameter itself: lian is called with one constant
                 self.defs.append({"prog": prog["name"], "fn": h["name"], "line": line, "var": p,
                                   "kind": "param", "sid": ["h", h["name"], p]})
             if h["body"]:
                 self.stmts(prog, h["name"], h["body"], 1, ["h", h["name"]])
             if h.get("ret") is not None:
-                self.emit(f"return {h['ret']}", 1)
+                self.emit(f"return {h['ret'] if isinstance(h['ret'], str) else opnd(h['ret'])}", 1)
             elif not h["body"]:
                 self.emit("pass", 1)
         params = ", ".join(f"d{i}" for i in range(prog["ndec"]))
@@ -311,7 +343,7 @@ def state_elem(row, stmt_line):
         return ["s", "" if _isnan(v) else str(v)]
     if dt in ("%float", "%bool", "%null"):
         return ["x", dt, None if _isnan(v) else str(v)]
-    if isinstance(dt, str) and dt and (not dt.startswith("%") or dt == "%array"):
+    if isinstance(dt, str) and dt and (not dt.startswith("%") or dt in ("%array", "%record")):
         sid = int(row["alloc_stmt"])
         return ["o", stmt_line.get(sid, -sid)]
     if dt in ("%method_decl", "%class_decl"):
@@ -778,11 +810,13 @@ def model_prog(prog, defs):
     # helpers that touch the heap or call other helpers are outside the Lean model's helper language:
     # the program is then compared with the Python exact reference and CPython ground truth only
     for h in prog.get("helpers", []):
-        if not h["params"] or h.get("ret") is None or any(st[0] not in ("const", "bin") for st in h["body"]):
+        if not h["params"] or not isinstance(h.get("ret"), str) or h.get("dparams") or any(st[0] not in ("const", "bin") for st in h["body"]):
             return None
+    if any(c.get("init") for c in prog.get("classes", [])) or '["ret"]' in json.dumps(prog["body"]) or prog.get("nomodel"):
+        return None
     # lian's list abstraction is index-insensitive (an element read yields every element ever stored); the
     # reference model is not: programs with lists are judged by ground-truth coverage only
-    if any(tok in json.dumps(prog["body"]) for tok in ('"list"', '"awrite"', '"aread"')):
+    if any(tok in json.dumps(prog["body"]) for tok in ('"list"', '"awrite"', '"aread"', '"dict"', '"dwrite"', '"dread"')):
         return None
     list_classes = []
 
@@ -818,6 +852,10 @@ def model_prog(prog, defs):
                 out.append(["fwrite", s[1], f"#{s[2]}", opnd_m(s[3])])
             elif t == "aread":
                 out.append(["fread", key(sid), s[1], s[2], f"#{s[3]}"])
+            elif t == "pass":
+                pass
+            elif t == "iflit":
+                out += block(s[1], sid + [0])          # always executed: the reference has no literal conditions
             else:
                 raise ValueError(t)
         return out
@@ -898,10 +936,18 @@ def prune_unused(prog):
     keep = helper_closure(prog, direct)
     helpers = [h for h in prog.get("helpers", []) if h["name"] in keep]
     used = body + json.dumps([h["body"] for h in helpers])
-    return dict(prog, helpers=helpers, classes=[c for c in prog.get("classes", []) if f'"{c["name"]}"' in used])
+    classes, changed = [], True
+    while changed:                      # classes allocated by the constructors of kept classes are kept as well
+        changed = False
+        for c in prog.get("classes", []):
+            if c not in classes and f'"{c["name"]}"' in used:
+                classes.append(c)
+                used += json.dumps(c.get("init", []))
+                changed = True
+    return dict(prog, helpers=helpers, classes=[c for c in prog.get("classes", []) if c in classes])
 
 
-def pyref(prog, defs, with_taint=False):
+def pyref(prog, defs, with_taint=False, mode="exact"):
     """{def key: sorted element list}.  Variables, fields and list elements hold sets of values; a binary
     operation yields the results of all operand combinations (Python's own operators on the data); assignment
     and a field/element write through a single-object receiver replace, `if` joins by union; objects and lists
@@ -917,11 +963,22 @@ def pyref(prog, defs, with_taint=False):
     parameters and locals, and everything computed from those.  It also returns, per definition key, the
     values a field/element held BEFORE a write performed inside a callee through a parameter ("stale": lian keeps
     them, finding C09/callee-write-keeps-old; "*" = derived from such a value by an operation) and, for
-    definitions inside helpers, the value sets of the single invocations."""
+    definitions inside helpers, the value sets of the single invocations.
+
+    mode="lian" is NOT the oracle: it is the frozen prediction used by the matcher of finding C08/callee-write-lost. It
+    differs from the exact semantics in what a field write performed INSIDE A CALLEE does to the caller's heap, as
+    observed on the unmodified analyser: a write through a receiver read from a field of a parameter (depth >= 2) is lost;
+    a write through a parameter whose value is an object is lost; a write through a parameter of a primitive value keeps
+    the old value next to the new one (mode "lian"; seen through some access paths only the new one: mode "lian_strong" —
+    the matcher accepts what lies between the two predictions)."""
     line_of = {json.dumps(d["sid"]): d["line"] for d in defs if d["prog"] == prog["name"]}
     out = {}
     tainted = set()
     stale = {}
+    pathstale = {}
+    PW = {}            # cell -> value it held before a caller-side write through a PATH variable (receiver defined by a field read)
+    chain3 = [False]   # a read through a path of depth 3 (x = a.g; y = x.g; z = y.f) has been seen
+    lost = {}
     invocations = {}
     depth = [0]
     inv_stack = []
@@ -933,6 +990,8 @@ def pyref(prog, defs, with_taint=False):
         return ("b" if isinstance(v, bool) else "i" if isinstance(v, int) else "s", v)
 
     def opv(a, V):
+        if a[0] == "d":
+            return frozenset([("i", 0), ("i", 1)])
         return V[a[1]] if a[0] == "v" else frozenset([tag(a[1])])
 
     def opt(a, T):
@@ -947,12 +1006,14 @@ def pyref(prog, defs, with_taint=False):
                 res.add(tag(safe_binop_unbounded(op, x[1], y[1])))
         return frozenset(res)
 
-    def log(key, vals, t, st=frozenset()):
+    def log(key, vals, t, st=frozenset(), lo=frozenset()):
         out.setdefault(key, set()).update(vals)
         if t:
             tainted.add(key)
         if st:
             stale.setdefault(key, set()).update(st)
+        if lo:
+            lost.setdefault(key, set()).update(lo)
         if inv_stack:
             invocations.setdefault(key, {}).setdefault(inv_stack[-1], set()).update(vals)
 
@@ -970,12 +1031,23 @@ def pyref(prog, defs, with_taint=False):
             if x[0] == "o":
                 TH[(x[1], "*")] = True
 
-    def write_cell(H, TH, SH, recv, field, val, t, sv):
+    LH = {}         # cell -> values it held before a DEEP callee-side write (receiver read from a field of a parameter)
+
+    def write_cell(H, TH, SH, recv, field, val, t, sv, deep=False):
         sites = [x[1] for x in recv if x[0] == "o"]
         for site in sites:
             cell = H.setdefault(site, {})
             old = cell.get(field, frozenset())
             oldst = SH.get((site, field), frozenset())
+            if deep and depth[0] > 0:
+                LH[(site, field)] = LH.get((site, field), frozenset()) | old
+            elif depth[0] == 0 and len(sites) == 1:
+                LH.pop((site, field), None)
+            if mode in ("lian", "lian_strong") and depth[0] > 0:
+                if deep or any(x[0] == "o" for x in val):
+                    continue                                   # the write does not reach the caller
+                cell[field] = (old | val) if mode == "lian" else val
+                continue
             cell[field] = val if len(sites) == 1 else (old | val)
             TH[(site, field)] = t if len(sites) == 1 else (TH.get((site, field), False) or t)
             if depth[0] > 0:
@@ -984,21 +1056,23 @@ def pyref(prog, defs, with_taint=False):
                 SH[(site, field)] = sv if len(sites) == 1 else (sv | oldst)
 
     def read_cell(H, TH, SH, recv, field):
-        res, t, st = frozenset(), False, frozenset()
+        res, t, st, lo = frozenset(), False, frozenset(), frozenset()
         for x in recv:
             if x[0] != "o":
                 raise Reject
             res |= H[x[1]][field]
             st |= SH.get((x[1], field), frozenset())
+            lo |= LH.get((x[1], field), frozenset())
             t = t or TH.get((x[1], field), False) or TH.get((x[1], "*"), False)
-        return res, t, st
+        return res, t, st, lo
 
     ninv = [0]
 
     def call(hname, args, V, T, S, H, TH, SH, root):
         h = helpers[hname]
         E, TE, SE = {}, {}, {}
-        hline = line_of[json.dumps(["h", h["name"], h["params"][0]])] if h["params"] else None
+        shown = [q for q in h["params"] if q not in h.get("dparams", [])]
+        hline = line_of[json.dumps(["h", h["name"], shown[0]])] if shown else None
         ninv[0] += 1
         inv_stack.append(ninv[0])
         depth[0] += 1
@@ -1007,16 +1081,22 @@ def pyref(prog, defs, with_taint=False):
                 E[pname] = opv(a, V)
                 TE[pname] = opt(a, T) or root
                 SE[pname] = ops(a, S)
-                log(("param", hline, pname), E[pname], TE[pname] or obj_taint(E[pname], TH), SE[pname])
+                E[("deep", pname)] = 0          # path depth below a parameter: 0 = the parameter object itself
+                if pname in shown:
+                    log(("param", hline, pname), E[pname], TE[pname] or obj_taint(E[pname], TH), SE[pname])
                 if root:
                     taint_objects(E[pname], TH)
+            E[("retif",)] = frozenset()
             run(h["body"], ["h", h["name"]], E, TE, SE, H, TH, SH, False, root)
         finally:
             depth[0] -= 1
             inv_stack.pop()
+        early = E.get(("retif",), frozenset())
         if h.get("ret") is None:
-            return frozenset(), root, frozenset()
-        return E[h["ret"]], TE.get(h["ret"], False) or root, SE.get(h["ret"], frozenset())
+            return early, root, frozenset()
+        if isinstance(h["ret"], str):
+            return E[h["ret"]] | early, TE.get(h["ret"], False) or root, SE.get(h["ret"], frozenset())
+        return opv(h["ret"], E) | early, root, frozenset()
 
     def run(body, prefix, V, T, S, H, TH, SH, joined, force):
         """force: everything defined here is tainted (we are inside a callee invoked from a root site)."""
@@ -1027,7 +1107,22 @@ def pyref(prog, defs, with_taint=False):
             if t == "const":
                 V[s[1]] = frozenset([tag(s[2])]); T[s[1]] = force; S[s[1]] = frozenset()
                 log(key_of(sid), V[s[1]], T[s[1]])
+            elif t == "retif":
+                V[("retif",)] = V.get(("retif",), frozenset()) | opv(s[2], V)
+            elif t == "pass":
+                pass
+            elif t == "ret":
+                return True
+            elif t == "iflit":
+                done = run(s[1], sid + [0], V, T, S, H, TH, SH, joined, force)
+                joined = True           # for lian the literal condition is a branch like any other
+                if done:
+                    return True
             elif t == "copy":
+                if ("deep", s[2]) in V:
+                    V[("deep", s[1])] = V[("deep", s[2])]
+                else:
+                    V.pop(("deep", s[1]), None)
                 V[s[1]] = V[s[2]]; T[s[1]] = T.get(s[2], False) or force; S[s[1]] = S.get(s[2], frozenset())
                 log(key_of(sid), V[s[1]], T[s[1]] or obj_taint(V[s[1]], TH), S[s[1]])
             elif t == "bin":
@@ -1039,14 +1134,25 @@ def pyref(prog, defs, with_taint=False):
                 cp = lambda: (dict(V), dict(T), dict(S), {a: dict(b) for a, b in H.items()}, dict(TH), dict(SH))
                 V1, T1, S1, H1, TH1, SH1 = cp()
                 V2, T2, S2, H2, TH2, SH2 = cp()
-                run(s[2], sid + [0], V1, T1, S1, H1, TH1, SH1, joined, force)
-                run(s[3], sid + [1], V2, T2, S2, H2, TH2, SH2, joined, force)
+                done1 = run(s[2], sid + [0], V1, T1, S1, H1, TH1, SH1, joined, force)
+                done2 = run(s[3], sid + [1], V2, T2, S2, H2, TH2, SH2, joined, force)
+                if done1 and done2:
+                    return True
+                if done1 or done2:          # an early return: only the other branch reaches the code below
+                    keep = (V2, T2, S2, H2, TH2, SH2) if done1 else (V1, T1, S1, H1, TH1, SH1)
+                    for dst, src in zip((V, T, S, H, TH, SH), keep):
+                        dst.clear(); dst.update(src)
+                    joined = True
+                    continue
                 V.clear(); T.clear(); S.clear(); H.clear(); TH.clear(); SH.clear()
                 for v in set(S1) | set(S2):
                     S[v] = S1.get(v, frozenset()) | S2.get(v, frozenset())
                 for c in set(SH1) | set(SH2):
                     SH[c] = SH1.get(c, frozenset()) | SH2.get(c, frozenset())
                 for v in set(V1) | set(V2):
+                    if isinstance(v, tuple):            # bookkeeping entries (path depth of a variable), not values
+                        V[v] = max(V1.get(v, 0), V2.get(v, 0))
+                        continue
                     V[v] = V1.get(v, frozenset()) | V2.get(v, frozenset())
                     T[v] = T1.get(v, False) or T2.get(v, False)
                 for site in set(H1) | set(H2):
@@ -1059,7 +1165,17 @@ def pyref(prog, defs, with_taint=False):
                 site = key_of(sid)
                 arg = opv(s[3], V)
                 ta = opt(s[3], T) or root
-                H[site] = {f: (arg if v == "p" else frozenset([tag(v)])) for f, v in classes[s[2]]["fields"]}
+                E = {"p": arg}
+                if classes[s[2]].get("init"):
+                    # the constructor's own statements (they may allocate other objects and read their fields)
+                    ninv[0] += 1
+                    inv_stack.append(ninv[0]); depth[0] += 1
+                    try:
+                        run(classes[s[2]]["init"], ["c", s[2]], E, {"p": ta}, {"p": ops(s[3], S)}, H, TH, SH, False, root)
+                    finally:
+                        depth[0] -= 1; inv_stack.pop()
+                fval = lambda v: arg if v == "p" else (E[v[1]] if isinstance(v, list) else frozenset([tag(v)]))
+                H[site] = {f: fval(v) for f, v in classes[s[2]]["fields"]}
                 for f, v in classes[s[2]]["fields"]:
                     TH[(site, f)] = ta if v == "p" else root
                     SH[(site, f)] = ops(s[3], S) if v == "p" else frozenset()
@@ -1081,14 +1197,68 @@ def pyref(prog, defs, with_taint=False):
                 recv = V[s[1]]
                 if any(x[0] != "o" for x in recv):
                     raise Reject
-                write_cell(H, TH, SH, recv, field, opv(s[3], V), opt(s[3], T) or T.get(s[1], False) or root, ops(s[3], S))
+                if depth[0] == 0:
+                    for x in recv:
+                        if V.get(("rdepth", s[1]), 0) >= 1:
+                            PW[(x[1], field)] = PW.get((x[1], field), frozenset()) | H.get(x[1], {}).get(field, frozenset())
+                        else:
+                            PW.pop((x[1], field), None)
+                write_cell(H, TH, SH, recv, field, opv(s[3], V), opt(s[3], T) or T.get(s[1], False) or root, ops(s[3], S),
+                           deep=V.get(("deep", s[1]), 0) >= 1)
                 if root:
                     taint_objects(recv, TH)
             elif t in ("fread", "aread"):
                 field = s[3] if t == "fread" else f"#{s[3]}"
-                res, tc, st = read_cell(H, TH, SH, V[s[2]], field)
+                res, tc, st, lo = read_cell(H, TH, SH, V[s[2]], field)
+                if depth[0] == 0:
+                    rd = V.get(("rdepth", s[2]), 0) + 1
+                    V[("rdepth", s[1])] = rd
+                    if rd >= 3:
+                        chain3[0] = True
+                    if chain3[0]:
+                        ps = frozenset().union(*[PW.get((x[1], field), frozenset()) for x in V[s[2]]])
+                        if ps:
+                            pathstale.setdefault(key_of(sid), set()).update(ps)
+                if ("deep", s[2]) in V:
+                    V[("deep", s[1])] = V[("deep", s[2])] + 1
+                else:
+                    V.pop(("deep", s[1]), None)
                 V[s[1]] = res; T[s[1]] = tc or T.get(s[2], False) or force; S[s[1]] = st
-                log(key_of(sid), res, T[s[1]], st)
+                log(key_of(sid), res, T[s[1]], st, lo)
+            elif t == "dict":
+                site = key_of(sid)
+                H[site] = {}
+                for kk, a in s[2]:
+                    H[site][f"k:{kk}"] = opv(a, V)
+                    TH[(site, f"k:{kk}")] = opt(a, T) or root
+                    SH[(site, f"k:{kk}")] = ops(a, S)
+                TH[(site, "*")] = root
+                V[s[1]] = frozenset([("o", site)]); T[s[1]] = root; S[s[1]] = frozenset()
+                log(site, V[s[1]], root)
+            elif t == "dwrite":
+                keys = [x[1] for x in opv(s[2], V)]
+                recv = V[s[1]]
+                sites = [x[1] for x in recv if x[0] == "o"]
+                val = opv(s[3], V)
+                for site in sites:
+                    for kk in keys:
+                        c = f"k:{kk}"
+                        if len(keys) == 1 and len(sites) == 1:
+                            H[site][c] = val
+                        else:
+                            H[site][c] = H[site].get(c, frozenset()) | val
+                        TH[(site, c)] = TH.get((site, c), False) or opt(s[3], T) or opt(s[2], T) or root
+                if root:
+                    taint_objects(recv, TH)
+            elif t == "dread":
+                keys = [x[1] for x in opv(s[3], V)]
+                res, tc = frozenset(), opt(s[3], T)
+                for x in V[s[2]]:
+                    for kk in keys:
+                        res |= H[x[1]][f"k:{kk}"]
+                        tc = tc or TH.get((x[1], f"k:{kk}"), False) or TH.get((x[1], "*"), False)
+                V[s[1]] = res; T[s[1]] = tc or T.get(s[2], False) or force; S[s[1]] = frozenset()
+                log(key_of(sid), res, T[s[1]])
             elif t == "call":
                 res, tr, st = call(s[2], s[3], V, T, S, H, TH, SH, root)
                 V[s[1]] = res; T[s[1]] = tr; S[s[1]] = st
@@ -1097,15 +1267,17 @@ def pyref(prog, defs, with_taint=False):
                 call(s[1], s[2], V, T, S, H, TH, SH, root)
             else:
                 raise ValueError(t)
+        return False
     try:
         run(prog["body"], [], {}, {}, {}, {}, {}, {}, False, False)
     except (Reject, KeyError):
-        return (None, {"tainted": set(), "stale": {}, "invocations": {}}) if with_taint else None
+        return (None, {"tainted": set(), "stale": {}, "lost": {}, "pathstale": {}, "invocations": {}}) if with_taint else None
     canon = lambda vals: sorted(([t, v] for t, v in vals), key=json.dumps)
     res = {k: canon(vals) for k, vals in out.items()}
     if not with_taint:
         return res
-    return res, {"tainted": tainted, "stale": {k: canon(v) for k, v in stale.items()},
+    return res, {"tainted": tainted, "stale": {k: canon(v) for k, v in stale.items()}, "lost": {k: canon(v) for k, v in lost.items()},
+                 "pathstale": {k: canon(v) for k, v in pathstale.items()},
                  "invocations": {k: [canon(v) for _, v in sorted(d.items())] for k, d in invocations.items()}}
 
 
@@ -1138,18 +1310,28 @@ def specialise(prog, vec, name):
         out = []
         for s in body:
             if s[0] == "if":
-                out += block(s[2] if vec[s[1]] else s[3])
+                inner, done = block(s[2] if vec[s[1]] else s[3])
+                out += inner
+                if done:
+                    return out, True
+            elif s[0] == "iflit":
+                inner, done = block(s[1])
+                out += inner
+                if done:
+                    return out, True
+            elif s[0] == "ret":
+                return out, True
             else:
                 out.append(s)
-        return out
-    p = dict(prog, body=block(prog["body"]), ndec=0)
+        return out, False
+    p = dict(prog, body=block(prog["body"])[0])        # the decision parameters stay (multi-return helpers still take them)
     p = prune_unused(p)         # helpers / classes only used in the branches not taken would be "not analysed"
     p = rename_prog(p, name)
     return p
 
 
 def has_branch(prog):
-    return any(s[0] == "if" for s in prog["body"])
+    return any(s[0] in ("if", "iflit") for s in prog["body"])
 
 
 def gen_multi_target(rng, name):
@@ -1229,7 +1411,7 @@ def join_revisit_shape(prog, defs, failing_entries):
 # shape generators: aliasing, fields across branches, list elements, helper chains
 # ------------------------------------------------------------------------------------------------
 
-def gen_shape(rng, name, shape, strs=False):
+def gen_shape(rng, name, shape, strs=False, variant=None):
     """Small randomised programs of one of the shapes
       "bf"    objects allocated before an if/else; one branch writes a field, the other branch and the code after
               the join read it (no call / allocation / write after the join: nothing the join-revisit findings cover)
@@ -1271,6 +1453,20 @@ def gen_shape(rng, name, shape, strs=False):
             ndec += 1
             tgt, f = rng.choice(objs), fld()
             other = rng.choice(objs)
+            if depth == 0 and (rng.random() < 0.4 if variant is None else variant % 4 != 3):
+                # both sides write the SAME object (different fields); one side reads both fields in a nested `if` and
+                # returns early, so those reads are reachable through that side only
+                g = "f1" if f == "f0" else "f0"
+                th = [["fwrite", nm(tgt), f, ["c", c()]]]
+                el = [["fwrite", nm(tgt), g, ["c", c()]]]
+                j = ndec
+                ndec += 1
+                early = [["fread", fresh("x"), nm(tgt), f], ["fread", fresh("x"), nm(tgt), g]]
+                rng.shuffle(early)
+                (th if rng.random() < 0.5 else el).append(["if", j, early + [["ret"]], []])
+                if rng.random() < 0.5:
+                    th, el = el, th
+                return ["if", i, th, el]
             th = [["fwrite", nm(tgt), f, ["c", c()]]]
             el = [["fread", fresh("x"), nm(tgt), f]]
             if rng.random() < 0.6:
@@ -1283,6 +1479,13 @@ def gen_shape(rng, name, shape, strs=False):
                 el.append(["fread", fresh("x"), nm(tgt), f])
             if depth == 0 and rng.random() < 0.25:
                 (th if rng.random() < 0.5 else el).append(branch_pair(1))
+            elif depth == 0 and rng.random() < 0.45:
+                # reads that are reachable through this branch only: a nested `if d:` reads the fields and returns early
+                j = ndec
+                ndec += 1
+                early = [["fread", fresh("x"), nm(o), f2] for o in objs for f2 in ("f0", "f1")]
+                rng.shuffle(early)
+                (th if rng.random() < 0.7 else el).append(["if", j, early[:rng.randint(2, 4)] + [["ret"]], []])
             if rng.random() < 0.5:
                 th, el = el, th
             return ["if", i, th, el]
@@ -1377,7 +1580,244 @@ def gen_shape(rng, name, shape, strs=False):
         rng.shuffle(parts)
         for part in parts:
             body += part
+    elif shape == "dict":
+        # record literals with constant string keys; element writes / reads through key VARIABLES that hold 1..3
+        # key constants (from if/else and from multi-return helpers); afterwards a read of every key
+        keys = ["a", "b", "cc"][:rng.randint(2, 3)]
+        pick2 = {"name": hn("pick2"), "params": ["c"], "dparams": ["c"], "body": [["retif", "c", ["c", keys[0]]]], "ret": ["c", keys[1]]}
+        pick3 = {"name": hn("pick3"), "params": ["c", "e"], "dparams": ["c", "e"],
+                 "body": [["retif", "c", ["c", keys[0]]], ["retif", "e", ["c", keys[1]]]], "ret": ["c", keys[-1]]}
+        helpers += [pick2, pick3]
+        val = (lambda: rng.choice(["p", "qq"]) if (strs and rng.random() < 0.2) else c())
+        dicts = []
+        for _ in range(rng.randint(1, 2)):
+            d = fresh("r")
+            body.append(["dict", d, [[k, ["c", val()]] for k in keys]])
+            dicts.append(d)
+        if rng.random() < 0.3:
+            al = fresh("r")
+            body.append(["copy", al, dicts[0]])
+            dicts.append(al)
+        for _ in range(rng.randint(2, 4)):
+            d = rng.choice(dicts)
+            kv = fresh("k")
+            r = rng.random()
+            if r < 0.4:
+                body.append(["call", kv, pick2["name"], [["d", ndec]]]); ndec += 1
+            elif r < 0.55 and len(keys) == 3:
+                body.append(["call", kv, pick3["name"], [["d", ndec], ["d", ndec + 1]]]); ndec += 2
+            elif r < 0.85:
+                k1, k2 = rng.sample(keys, 2)
+                body.append(["if", ndec, [["const", kv, k1]], [["const", kv, k2]]]); ndec += 1
+            else:
+                body.append(["const", kv, rng.choice(keys)])
+            body.append(["dwrite", d, ["v", kv], ["c", val()]])
+            order = list(keys)
+            rng.shuffle(order)
+            for k in order:
+                body.append(["dread", fresh("x"), rng.choice(dicts) if rng.random() < 0.3 else d, ["c", k]])
+            if rng.random() < 0.4:
+                body.append(["dread", fresh("x"), d, ["v", kv]])
+        for d in dicts[:2]:
+            for k in keys:
+                body.append(["dread", fresh("x"), d, ["c", k]])
+
+    elif shape == "nest":
+        # object graphs of depth 2-3: container.field -> inner object -> field; links made before / after writes; writes
+        # through the inner object's own variable and through the path; built in helpers and returned, passed in and mutated
+        ci = {"name": f"I_{name}", "fields": [["f0", "p"], ["f1", c()]]}
+        co = {"name": f"O_{name}", "fields": [["g0", "p"], ["g1", c()]]}
+        classes[:] = [ci, co]
+
+        def reads_all(outer, inner, top=None):
+            """reads of both inner fields through every path"""
+            paths = []
+            if inner is not None:
+                paths.append(("own", inner))
+            paths.append(("path", outer))
+            if top is not None:
+                paths.append(("top", top))
+            rng.shuffle(paths)
+            for kind, v in paths:
+                fs = ["f0", "f1"]
+                rng.shuffle(fs)
+                if kind == "own":
+                    for f in fs:
+                        body.append(["fread", fresh("x"), v, f])
+                elif kind == "path":
+                    t = fresh("t")
+                    body.append(["fread", t, v, "g0"])
+                    for f in fs:
+                        body.append(["fread", fresh("x"), t, f])
+                else:
+                    t, u = fresh("t"), fresh("t")
+                    body.append(["fread", t, v, "g0"])
+                    body.append(["fread", u, t, "g0"])
+                    for f in fs:
+                        body.append(["fread", fresh("x"), u, f])
+        variant = rng.choice(["caller", "caller", "build", "build", "build", "build", "mutate", "mutate"])
+        if variant == "caller":
+            i, o = fresh("i"), fresh("o")
+            body.append(["new", i, ci["name"], ["c", c()]])
+            link_first = rng.random() < 0.5
+            if not link_first:
+                body.append(["fwrite", i, rng.choice(["f0", "f1"]), ["c", c()]])
+            if rng.random() < 0.5:
+                body.append(["new", o, co["name"], ["v", i]])
+            else:
+                body.append(["new", o, co["name"], ["c", c()]])
+                body.append(["fwrite", o, "g0", ["v", i]])
+            top = None
+            if rng.random() < 0.4:
+                top = fresh("o")
+                body.append(["new", top, co["name"], ["v", o]])
+            for _ in range(rng.randint(1, 3)):
+                f = rng.choice(["f0", "f1"])
+                if rng.random() < 0.5:
+                    body.append(["fwrite", i, f, ["c", c()]])
+                else:
+                    t = fresh("t")
+                    body.append(["fread", t, o, "g0"])
+                    body.append(["fwrite", t, f, ["c", c()]])
+                reads_all(o, i, top)
+        elif variant == "build":
+            hb = [["new", "inner", ci["name"], ["c", c()]], ["new", "outer", co["name"], ["c", c()]]]
+            link = ["fwrite", "outer", "g0", ["v", "inner"]]
+            writes = [["fwrite", "inner", rng.choice(["f0", "f1"]), ["c", c()]] for _ in range(rng.randint(1, 2))]
+            if rng.random() < 0.75:
+                hb += [link] + writes                    # the object is written AFTER it was stored into the container
+            else:
+                hb += writes + [link]
+            if rng.random() < 0.3:
+                hb += [["fread", "t", "outer", "g0"], ["fwrite", "t", rng.choice(["f0", "f1"]), ["c", c()]]]
+            build = {"name": hn("build"), "params": [], "body": hb, "ret": "outer"}
+            helpers.append(build)
+            m = fresh("o")
+            body.append(["call", m, build["name"], []])
+            reads_all(m, None)
+            if rng.random() < 0.5:
+                t = fresh("t")
+                body.append(["fread", t, m, "g0"])
+                body.append(["fwrite", t, "f0", ["c", c()]])
+                reads_all(m, None)
+        else:
+            i, o = fresh("i"), fresh("o")
+            body.append(["new", i, ci["name"], ["c", c()]])
+            body.append(["new", o, co["name"], ["v", i]])
+            mut1 = {"name": hn("mut1"), "params": ["a"], "body": [["fwrite", "a", "f0", ["c", c()]]], "ret": None}
+            mutd = {"name": hn("mutd"), "params": ["a"], "body": [["fread", "t", "a", "g0"], ["fwrite", "t", "f1", ["c", c()]]], "ret": None}
+            relink = {"name": hn("relink"), "params": ["a", "b"], "body": [["fwrite", "a", "g0", ["v", "b"]]], "ret": None}
+            helpers += [mut1, mutd, relink]
+            acts = rng.sample(["mut1", "mutd", "mut1path", "relink"], rng.randint(1, 3))
+            for act in acts:
+                if act == "mut1":
+                    body.append(["callp", mut1["name"], [["v", i]]])
+                elif act == "mutd":
+                    body.append(["callp", mutd["name"], [["v", o]]])
+                elif act == "mut1path":
+                    t = fresh("t")
+                    body.append(["fread", t, o, "g0"])
+                    body.append(["callp", mut1["name"], [["v", t]]])
+                else:
+                    j = fresh("i")
+                    body.append(["new", j, ci["name"], ["c", c()]])
+                    body.append(["callp", relink["name"], [["v", o], ["v", j]]])
+                reads_all(o, i)
+    elif shape == "mret":
+        # helpers with 2-3 return statements, values and objects, in every order; each called from two sites
+        def early(nret, order):
+            ps = ["a", "b", "g"][:nret]          # not "e": lian's builtin mock `append(e)` sits on line 1 of its own unit
+            dps = ["c", "d"][:nret - 1]
+            rets = [ps[i] for i in order]
+            return {"name": hn(f"early{nret}{''.join(map(str, order))}"), "params": dps + ps, "dparams": dps,
+                    "body": [["retif", dps[k], ["v", rets[k]]] for k in range(nret - 1)], "ret": rets[-1]}
+        hs = []
+        for _ in range(rng.randint(2, 3)):
+            nret = rng.choice([2, 2, 3])
+            order = list(range(nret))
+            rng.shuffle(order)
+            h = early(nret, order)
+            if h["name"] not in [x["name"] for x in hs]:
+                hs.append(h)
+        helpers += hs
+        objs = []
+        if rng.random() < 0.6:
+            for _ in range(3):
+                o = fresh("o")
+                body.append(["new", o, cls["name"], ["c", c()]])
+                objs.append(o)
+        for h in hs:
+            nd = len(h["dparams"])
+            for site in range(2):
+                dargs = [["d", ndec + k] for k in range(nd)]
+                ndec += nd
+                if objs and rng.random() < 0.35:
+                    args = [["v", o] for o in rng.sample(objs, len(h["params"]) - nd)]
+                    r = fresh("o")
+                    body.append(["call", r, h["name"], dargs + args])
+                    body.append(["fread", fresh("x"), r, rng.choice(["f0", "f1"])])
+                else:
+                    body.append(["call", fresh("x"), h["name"], dargs + [["c", c()] for _ in range(len(h["params"]) - nd)]])
+
+    elif shape == "comp":
+        # composition: constructors that allocate OTHER objects with overlapping field names, nested constructor calls,
+        # two call sites per class with different constants
+        inner = {"name": f"In_{name}", "fields": [["v", "p"], ["w", c()]]}
+        plain = {"name": f"Pl_{name}", "fields": [["v", "p"], ["w", c()]]}
+        init = [["new", "t", inner["name"], ["c", c()]]]
+        ofields = [["v", "p"]]
+        if rng.random() < 0.7:
+            init.append(["fread", "u", "t", rng.choice(["v", "w"])])
+            ofields.append(["w", ["v", "u"]])
+        else:
+            ofields.append(["w", c()])
+        if rng.random() < 0.6:
+            ofields.append(["k", ["v", "t"]])
+        rng.shuffle(ofields)
+        outer = {"name": f"Out_{name}", "init": init, "fields": ofields}
+        top = {"name": f"Top_{name}", "init": [["new", "m", outer["name"], ["c", c()]], ["fread", "n", "m", "v"]],
+               "fields": [["v", "p"], ["w", ["v", "n"]], ["k", ["v", "m"]]]}
+        classes[:] = [inner, plain, outer, top]
+        made = []
+        for cl in rng.sample([plain, outer, outer, inner, top], rng.randint(3, 5)):
+            for _ in range(2):                       # two call sites with different constants
+                o = fresh("o")
+                body.append(["new", o, cl["name"], ["c", c()]])
+                made.append((o, cl))
+        rng.shuffle(made)
+        for o, cl in made:
+            for f, v in cl["fields"]:
+                if isinstance(v, list) and f == "k":
+                    t = fresh("t")
+                    body.append(["fread", t, o, "k"])
+                    body.append(["fread", fresh("x"), t, rng.choice(["v", "w"])])
+                else:
+                    body.append(["fread", fresh("x"), o, f])
     else:
         raise ValueError(shape)
+    if shape in ("bf", "alias", "nest", "comp", "chain") and rng.random() < 0.6:
+        body = sprinkle(rng, body, fresh, c)
     p = {"name": name, "ndec": ndec, "classes": classes, "helpers": helpers, "body": body}
+    if shape == "nest":
+        p["nomodel"] = True        # object graphs: lian answers a depth-3 path read with an unknown state (sound); the Lean
+                                   # reference is not asked, ground-truth coverage decides
     return prune_unused(p)
+
+
+def sprinkle(rng, body, fresh, c, rate=0.25, top=True):
+    """no-op statements between writes and reads: `pass` anywhere, and `if 1:` around a harmless constant assignment —
+    the latter only where no call / allocation / write follows any more: for lian a literal condition is a branch, and a
+    write after its join is a root site of the join-revisit findings (it would widen that matcher for no reason)."""
+    ROOTS = ('"call"', '"callp"', '"new"', '"list"', '"dict"', '"fwrite"', '"awrite"', '"dwrite"')
+    out = []
+    for i, s in enumerate(body):
+        if s[0] == "if":
+            s = ["if", s[1], sprinkle(rng, s[2], fresh, c, rate, False), sprinkle(rng, s[3], fresh, c, rate, False)]
+        if out and s[0] in ("fread", "aread", "dread", "call", "copy") and rng.random() < rate:
+            rest = json.dumps(body[i:])
+            if top and rng.random() < 0.5 and not any(tok in rest for tok in ROOTS):
+                out.append(["iflit", [["const", fresh("z"), c()]]])
+            else:
+                out.append(["pass"])
+        out.append(s)
+    return out
